@@ -139,20 +139,25 @@ structure MGlob where
   newCrossSum : MFactor := []
   newFactorCrossSum : MFactor := []
 
-def moveCB : Callbacks MFactor MGlob where
+/-- MOVE's callbacks.  `keep = false`: the code as written — an action for which nothing matched (newCrossSum
+    empty) is DROPPED.  `keep = true`: the repaired code (fixes/C13-2) — it contributes the zero vector of `nobj`
+    objectives.  The driver selects the variant from the translator fact `AITB.Gen.moveKeepsUnmatched`. -/
+def moveCBWith (keep : Bool) (nobj : Nat) : Callbacks MFactor MGlob where
   beginRemoval := fun _ _ v s => { s with agent := v }
   initNewFactor := fun s => { s with newFactor := [] }
   beginCrossSum := fun k s => { s with newCrossSum := [], agentAction := k }
   beginFactorCrossSum := fun s => { s with newFactorCrossSum := [] }
   crossSum := fun f s => { s with newFactorCrossSum := s.newFactorCrossSum ++ mCrossSumF s.newCrossSum f }
   endFactorCrossSum := fun s => if s.newFactorCrossSum.isEmpty then s else { s with newCrossSum := s.newFactorCrossSum }
-  -- as written: an action for which nothing matched (newCrossSum empty) is DROPPED
   endCrossSum := fun s =>
+    let s := if keep && s.newCrossSum.isEmpty && nobj > 0 then { s with newCrossSum := [⟨List.replicate nobj 0, []⟩] } else s
     if s.newCrossSum.isEmpty then s else
     { s with newFactor := s.newFactor ++ s.newCrossSum.map (fun e => { e with tag := insTag s.agent s.agentAction e.tag }) }
   isValidNewFactor := fun s => !s.newFactor.isEmpty
   newFactor := fun s => s.newFactor
   mergeFactors := mCrossSumF
+
+def moveCB : Callbacks MFactor MGlob := moveCBWith false 0
 
 structure MRuleT where
   keys : List Nat
@@ -181,12 +186,16 @@ def mFinalCross (finals : List MFactor) : MFactor := finals.foldl mCrossSumF []
 
 /-- MOVE as the code runs it; the closing `extractDominated` is modelled by its specification
     (keep the value vectors not weakly dominated by a different one; C12 covers the routine itself) -/
-def moveRun (A : List Nat) (rules : List MRuleT) : MFactor :=
-  let st := gRun moveCB A A.length (mInit A rules []) {}
+def moveRunWith (keep : Bool) (nobj : Nat) (A : List Nat) (rules : List MRuleT) : MFactor :=
+  let st := gRun (moveCBWith keep nobj) A A.length (mInit A rules []) {}
   mFinalCross st.finals
 
-def moveValues (A : List Nat) (rules : List MRuleT) : List (List Rat) :=
-  paretoFront ((moveRun A rules).map (·.vals)).eraseDups
+def moveValuesWith (keep : Bool) (nobj : Nat) (A : List Nat) (rules : List MRuleT) : List (List Rat) :=
+  paretoFront ((moveRunWith keep nobj A rules).map (·.vals)).eraseDups
+
+/-- the code as written -/
+def moveRun (A : List Nat) (rules : List MRuleT) : MFactor := moveRunWith false 0 A rules
+def moveValues (A : List Nat) (rules : List MRuleT) : List (List Rat) := moveValuesWith false 0 A rules
 
 /-- the specification: value vector of a joint action -/
 def mPayoff (nobj : Nat) (rules : List MRuleT) (x : Asg) : List Rat :=
